@@ -377,16 +377,62 @@ func drawUniqCase(t *simrt.Tape, thorough bool) ([]uniqRec, uniqOpts) {
 	return recs, o
 }
 
+// drawUniqLarge: more than 2^16 distinct sequences that all fall in one chunk (plus a few
+// duplicates): every width-limited class code, hash or counter inside one chunk is exceeded.
+func drawUniqLarge(t *simrt.Tape) ([]uniqRec, uniqOpts) {
+	var o uniqOpts
+	o.InMemory = t.Choose(2) == 1
+	ns := 65537 + t.Choose(3000)
+	mul := uint32(2654435761) // odd: i -> i*mul is a bijection on 32 bits = 16 nucleotides
+	off := uint32(t.Choose(1 << 30))
+	seqOf := func(i int) string {
+		v := (uint32(i) + off) * mul
+		b := make([]byte, 16)
+		for k := range b {
+			b[k] = dna[v&3]
+			v >>= 2
+		}
+		return string(b)
+	}
+	recs := make([]uniqRec, 0, ns+40)
+	for i := 0; i < ns; i++ {
+		recs = append(recs, uniqRec{ID: fmt.Sprintf("u%06d", i), Seq: seqOf(i)})
+	}
+	for k := 1 + t.Choose(40); k > 0; k-- {
+		recs = append(recs, uniqRec{ID: fmt.Sprintf("d%06d", k), Seq: seqOf(t.Choose(ns)), Count: 1 + t.Choose(5)})
+	}
+	o.NoSingleton = t.Choose(2) == 1
+	o.Chunks = 1
+	return recs, o
+}
+
 func runC06(rc *RunCtx) {
 	t := rc.Plan
-	recs, o := drawUniqCase(t, rc.Thorough())
-	// input permutation is part of the plan
-	perm := drawPerm(t, len(recs))
+	large := t.Choose(400) == 1
+	var recs []uniqRec
+	var o uniqOpts
+	var perm []int
+	var p parCfg
+	if large {
+		recs, o = drawUniqLarge(t)
+		perm = make([]int, len(recs))
+		for i := range perm {
+			perm[i] = i
+		}
+		p = drawParCfg(t, len(recs))
+		p.BatchSize = []int{2000, 5000, 17000}[t.Choose(3)]
+		p.Yield, p.Chunk = 0, 0
+		rc.Probe("more_than_65536_distinct_sequences_in_one_chunk")
+	} else {
+		recs, o = drawUniqCase(t, rc.Thorough())
+		// input permutation is part of the plan
+		perm = drawPerm(t, len(recs))
+		p = drawParCfg(t, len(recs))
+	}
 	var sb strings.Builder
 	for _, i := range perm {
 		sb.WriteString(recs[i].text())
 	}
-	p := drawParCfg(t, len(recs))
 	dir := filepath.Join(rc.Dir, fmt.Sprintf("u%d", rc.Index))
 	defer cleanup(dir)
 	os.MkdirAll(dir, 0755)
@@ -400,7 +446,11 @@ func runC06(rc *RunCtx) {
 		knobs["chunk"] = p.Chunk
 	}
 	rc.Out.Sample = map[string]any{"records": len(recs), "options": o.args(), "config": p.String()}
-	co := rc.RunCmd(CmdSpec{Name: "obiuniq", Args: args, Dir: dir, Knobs: knobs, PoolPolicy: p.Pool, YieldDensity: p.Yield})
+	spec := CmdSpec{Name: "obiuniq", Args: args, Dir: dir, Knobs: knobs, PoolPolicy: p.Pool, YieldDensity: p.Yield}
+	if large {
+		spec.MaxSteps = 20000000
+	}
+	co := rc.RunCmd(spec)
 	mode := "disk"
 	if o.InMemory {
 		mode = "memory"
@@ -508,11 +558,14 @@ func runC06(rc *RunCtx) {
 
 func init() {
 	register(&Property{
-		ID:     "C06",
+		ID: "C06",
+		// the large case: in memory (quick: it is the faster one, about a minute), and on disk (thorough)
+		Enum:   func(tier string) int { return map[string]int{"quick": 1, "thorough": 2}[tier] },
+		Case:   func(tier string, i int) []int32 { return []int32{1, int32(1 - i)} },
 		Random: func(tier string) int { return map[string]int{"quick": 320, "thorough": 24000}[tier] },
 		Run:    runC06,
 		Level:  "exploration",
-		Rule:   "each case = a generated multiset of records (1-25 distinct sequences incl. one-base variants, counts absent/1/n, sample present, absent or already merged_sample maps, tag present or absent) in a drawn input permutation, dereplicated by the real obiuniq main in a child process with drawn -m / -c / --na-value / --no-singleton / --in-memory or on-disk / --chunk-count 1,2,3,7,100 / --max-cpu / --batch-size and a seeded schedule (on-disk mode uses real chunk files in the run's TMPDIR); the output is compared as a set with a reference group-by (count sums, merged map sums, singleton rule). distinct = distinct (options, configuration, schedule signature); non-trivial = at least one step with >=2 runnable tasks",
+		Rule:   "enumerated part: more than 65536 distinct 16-mers (+ a few duplicates) in one chunk, in memory (quick) and also on disk (thorough) (also drawn with probability 1/400 in the random part, 65537-68536 sequences); each other case = a generated multiset of records (1-25 distinct sequences incl. one-base variants, counts absent/1/n, sample present, absent or already merged_sample maps, tag present or absent) in a drawn input permutation, dereplicated by the real obiuniq main in a child process with drawn -m / -c / --na-value / --no-singleton / --in-memory or on-disk / --chunk-count 1,2,3,7,100 / --max-cpu / --batch-size and a seeded schedule (on-disk mode uses real chunk files in the run's TMPDIR); the output is compared as a set with a reference group-by (count sums, merged map sums, singleton rule). distinct = distinct (options, configuration, schedule signature); non-trivial = at least one step with >=2 runnable tasks",
 		Real:   []string{"the real obiuniq main", "obichunk (IUniqueSequence, ISequenceChunk, ISequenceChunkOnDisk, ISequenceSubChunk)", "obiiter.Distribute / IMergeSequenceBatch", "obiformats.WriterDispatcher and the FASTA writer/reader on real temporary files", "obiseq.Merge / StatsOn"},
 		Stub:   []string{"sync primitives, pools, scheduler (simrt)", "process exit (captured)", "stdout/stderr (files)"},
 	})
